@@ -106,6 +106,9 @@ func (vs *VerifSource) VerifPrepare(npre, nsamp int) error {
 	if err := vs.PrepareRun(npre, nsamp); err != nil {
 		return err
 	}
+	vs.sourceStateLock.Lock()
+	vs.sourceState = Active // as after RunDoneActivate, without the wait group (no CoreLoop runs)
+	vs.sourceStateLock.Unlock()
 	vs.captured = make(chan []*DataRecord, 4*vs.nchan+16)
 	for _, dsp := range vs.processors {
 		dsp.PubRecordsChan = vs.captured
@@ -196,6 +199,10 @@ func VerifNewSourceControl(ds DataSource, npre, nsamp int) *SourceControl {
 	sc.status.Running = true
 	sc.status.Npresamp = npre
 	sc.status.Nsamples = nsamp
+	go func() { // the RPC server's heartbeat reader
+		for range sc.heartbeats {
+		}
+	}()
 	return sc
 }
 
